@@ -33,5 +33,7 @@ class SpecContract:
             if pe.exc.cls == "Reject":
                 classes = [a for a in pe.exc.args if isinstance(a, str)] or ["Exception"]
                 k = ctx.fork(len(classes))
-                raise PyExc(ExcVal(classes[k], ("contract of " + self.qualname,)))
+                e = ExcVal(classes[k], ("contract of " + self.qualname,))
+                e.alts = classes
+                raise PyExc(e)
             raise
